@@ -12,6 +12,11 @@ Ops
   instrument itself, printed `base:quote:<kind…>` with base / quote lower-cased); one `sub` line is all-formatted,
   all-verbatim or all-un-keyed (a Rust subscription list has one instrument type); in the first two forms the
   k-th instrument has key k.
+* `keys <k0> <k1> …` — the instrument keys of the NEXT `sub` line (formatted or verbatim, as many as it has
+  instruments, pairwise distinct): the k-th instrument is subscribed under key `k_k` instead of `k` (keys as a
+  global `InstrumentIndex` assigns them: not from 0, not contiguous, not in subscription order). The model works
+  on positions; the drivers print position `k` as `k_k` (a relabelling along an injective function: the code is
+  generic in the key type and only stores, clones and compares keys). Answer `keys <n>`; anything else `bad-op`.
 * `conf <channel> <symbol> <chanId>` — Bitfinex `subscribed` confirmation.
 * `msg <channel> <symbol> <chanId> <item>*` — `item = price:amount:<b|s>:time_ms`.
 
@@ -161,8 +166,18 @@ def sortByKey (m : IMap) : IMap :=
     let (lo, hi) := acc.span (fun x => x.2 ≤ e.2)
     lo ++ e :: hi) []
 
-def fmtMap (m : IMap) : String :=
-  "map " ++ " ".intercalate ((sortByKey m).map fun (id, k) => toString k ++ "=" ++ String.ofList id)
+/-- the key the `k`-th instrument is subscribed under: `k` itself unless a `keys` line preceded the `sub` -/
+def keyOf (keys : List Nat) (k : Nat) : Nat := if keys.isEmpty then k else keys.getD k k
+
+/-- `keys k0 k1 …`: naturals of at most 18 digits (a `usize`), pairwise distinct -/
+def parseKeys (toks : List String) : Option (List Nat) := do
+  let ks ← toks.mapM (fun t => if t.all Char.isDigit && t.length ≤ 18 then t.toNat? else none)
+  if ks.eraseDups.length = ks.length then some ks else none
+
+def fmtMapK (keys : List Nat) (m : IMap) : String :=
+  "map " ++ " ".intercalate ((sortByKey m).map fun (id, k) => toString (keyOf keys k) ++ "=" ++ String.ofList id)
+
+def fmtMap (m : IMap) : String := fmtMapK [] m
 
 /-- the observation lines of an event whose key is printed as `key` -/
 def fmtEventWith (key : String) (ev : Event) : List String :=
@@ -178,6 +193,8 @@ def fmtEventWith (key : String) (ev : Event) : List String :=
   | .liq p q s => ["liq " ++ fmtRat p ++ " " ++ fmtRat q ++ " " ++ sideStr s, "dk liquidation 1"]
 
 def fmtEvent (ev : Event) : List String := fmtEventWith (toString ev.key) ev
+
+def fmtEventK (keys : List Nat) (ev : Event) : List String := fmtEventWith (toString (keyOf keys ev.key)) ev
 
 def fmtEventU (ev : EventU) : List String := fmtEventWith (fmtInst ev.key) ⟨0, ev.exch, ev.time, ev.kind⟩
 
@@ -197,6 +214,10 @@ structure St where
   map : IMap := []
   /-- `some (subs, map)`: the case subscribed un-keyed instruments; `map` above is then unused -/
   unkeyed : Option (List Inst × UMap) := none
+  /-- the keys of the subscribed instruments by position (`[]`: key = position) -/
+  keys : List Nat := []
+  /-- a `keys` line waiting for its `sub` -/
+  pending : Option (List Nat) := none
 
 def parseNoise : String → Option Noise
   | "kraken_hb" => some .krakenHeartbeat
@@ -209,15 +230,24 @@ def model : Drv St where
   init := {}
   step s toks :=
     match toks with
+    | "keys" :: ks =>
+      match parseKeys ks with
+      | some ks => ({ s with pending := some ks }, ["keys " ++ toString ks.length])
+      | none => ({ s with pending := none }, ["bad-op"])
     | "sub" :: e :: k :: insts =>
+      let pend := s.pending
+      let s := { s with pending := none }
       match parsePair e k, parseUnkeyedAll insts, parseReps insts with
       | some p, some subs, _ =>
+        if pend.isSome then (s, ["bad-op"]) else
         -- the un-keyed path: `Map<MarketDataInstrument>` (`mapOfU`), events keyed by the instrument
         let m := mapOfU p subs
-        (⟨some p, [], some (subs, m)⟩, [fmtMapU subs m])
+        (⟨some p, [], some (subs, m), [], none⟩, [fmtMapU subs m])
       | some p, none, some subs =>
+        let keys := pend.getD []
+        if pend.isSome && keys.length != subs.length then (s, ["bad-op"]) else
         let m := mapOfR p subs
-        (⟨some p, m, none⟩, [fmtMap m])
+        (⟨some p, m, none, keys, none⟩, [fmtMapK keys m])
       | _, _, _ => (s, ["bad-op"])
     | ["conf", chan, mkt, cid] =>
       match s.pair, cid.toNat? with
@@ -229,7 +259,7 @@ def model : Drv St where
             ({ s with unkeyed := some (subs, m) }, [fmtMapU subs m])
           | none =>
             let m := bitfinexSubscribed s.map chan.toList mkt.toList cid
-            ({ s with map := m }, [fmtMap m])
+            ({ s with map := m }, [fmtMapK s.keys m])
         else (s, ["bad-op"])
       | _, _ => (s, ["bad-op"])
     | "msg" :: rest =>
@@ -243,7 +273,7 @@ def model : Drv St where
           | .unidentifiable id => (s, ["nev 1", "err unidentifiable", "errid " ++ String.ofList id])
         | none =>
         match transform p s.map msg with
-        | .events evs => (s, ("nev " ++ toString evs.length) :: (evs.map fmtEvent).flatten)
+        | .events evs => (s, ("nev " ++ toString evs.length) :: (evs.map (fmtEventK s.keys)).flatten)
         | .unidentifiable id => (s, ["nev 1", "err unidentifiable", "errid " ++ String.ofList id])
       | _, _ => (s, ["bad-op"])
     | ["noise", v] =>
@@ -251,7 +281,7 @@ def model : Drv St where
       | some p, some n =>
         if !n.sentBy p.exch then (s, ["bad-op"]) else
         match transformNoise p s.map n with
-        | .events evs => (s, ("nev " ++ toString evs.length) :: (evs.map fmtEvent).flatten)
+        | .events evs => (s, ("nev " ++ toString evs.length) :: (evs.map (fmtEventK s.keys)).flatten)
         | .unidentifiable id => (s, ["nev 1", "err unidentifiable", "errid " ++ String.ofList id])
       | _, _ => (s, ["bad-op"])
     | _ => (s, ["bad-op"])
@@ -264,6 +294,9 @@ structure SpecSt where
   confs : List (Str × Nat) := []
   /-- un-keyed subscriptions: the instrument key the property demands IS the subscribed instrument -/
   unkeyed : Bool := false
+  /-- the keys of the subscribed instruments by position (`[]`: key = position); a waiting `keys` line -/
+  keys : List Nat := []
+  pending : Option (List Nat) := none
 
 /-- venues whose trade payload carries the symbol per trade: an empty message names no market -/
 def perItemSymbol : Exch → Bool
@@ -308,10 +341,20 @@ def spec : Drv SpecSt where
   init := {}
   step s toks :=
     match toks with
+    | "keys" :: ks =>
+      match parseKeys ks with
+      | some ks => ({ s with pending := some ks }, [])
+      | none => ({ s with pending := none }, ["bad-op"])
     | "sub" :: e :: k :: insts =>
+      let pend := s.pending
+      let s := { s with pending := none }
       match parsePair e k, parseUnkeyedAll insts, parseReps insts with
-      | some p, some subs, _ => (⟨some p, subs.map .formatted, [], true⟩, [])
-      | some p, none, some subs => (⟨some p, subs, [], false⟩, [])
+      | some p, some subs, _ =>
+        if pend.isSome then (s, ["bad-op"]) else (⟨some p, subs.map .formatted, [], true, [], none⟩, [])
+      | some p, none, some subs =>
+        let keys := pend.getD []
+        if pend.isSome && keys.length != subs.length then (s, ["bad-op"]) else
+        (⟨some p, subs, [], false, keys, none⟩, [])
       | _, _, _ => (s, ["bad-op"])
     | ["conf", _, mkt, cid] =>
       match s.pair, cid.toNat? with
@@ -349,7 +392,8 @@ def spec : Drv SpecSt where
           else
           match specVerdictR p.exch s.subs m with
           | .rejected => (s, ["nev 1", "err unidentifiable"])
-          | .attributed key => (s, specEvents p (toString key) msg)
+          -- the key the property demands: the one the caller subscribed that instrument under
+          | .attributed key => (s, specEvents p (toString (keyOf s.keys key)) msg)
           | .ambiguous => (s, [])
       | _, _ => (s, ["bad-op"])
     | ["noise", v] =>
